@@ -126,6 +126,82 @@ theorem PlainObj.window {pp : PP} (P : PlainObj pp) (sec : Section) (hs : sec.is
   rw [List.length_append, hl] at this
   exact this
 
+/-! ### the section accessor, numerically -/
+
+theorem currentSection_additional (pp : PP) (c : Cursor) (off x : Nat) (hoff : c.offset = some off)
+    (hq : pp.offsetQuestion = some 12) (h12 : 12 ≤ off) (hr : pp.offsetAdditional = some x) (hx : x ≤ off) :
+    c.currentSection pp = .ok .additional := by
+  unfold Cursor.currentSection
+  have a1 : ¬ (off < 12) := by omega
+  have a2 : ¬ (off < x) := by omega
+  simp [hoff, hq, hr, optLt, optGe, a1, a2]
+
+theorem currentSection_nameServers (pp : PP) (c : Cursor) (off n : Nat) (hoff : c.offset = some off)
+    (hq : pp.offsetQuestion = some 12) (h12 : 12 ≤ off) (hn : pp.offsetNameservers = some n) (hno : n ≤ off)
+    (hr : ∀ x, pp.offsetAdditional = some x → off < x) :
+    c.currentSection pp = .ok .nameServers := by
+  unfold Cursor.currentSection
+  have a1 : ¬ (off < 12) := by omega
+  have a2 : ¬ (off < n) := by omega
+  cases hR : pp.offsetAdditional with
+  | none => simp [hoff, hq, hn, hR, optLt, optGe, a1, a2]
+  | some x =>
+    have := hr x hR
+    simp [hoff, hq, hn, hR, optLt, optGe, a1, a2, this]
+
+theorem currentSection_answer (pp : PP) (c : Cursor) (off a : Nat) (hoff : c.offset = some off)
+    (hq : pp.offsetQuestion = some 12) (h12 : 12 ≤ off) (ha : pp.offsetAnswers = some a) (hao : a ≤ off)
+    (hn : ∀ n, pp.offsetNameservers = some n → off < n) (hr : ∀ x, pp.offsetAdditional = some x → off < x) :
+    c.currentSection pp = .ok .answer := by
+  unfold Cursor.currentSection
+  have a1 : ¬ (off < 12) := by omega
+  have a2 : ¬ (off < a) := by omega
+  cases hR : pp.offsetAdditional with
+  | none =>
+    cases hN : pp.offsetNameservers with
+    | none => simp [hoff, hq, ha, hN, hR, optLt, optGe, a1, a2]
+    | some n => have := hn n hN; simp [hoff, hq, ha, hN, hR, optLt, optGe, a1, a2, this]
+  | some x =>
+    have hx := hr x hR
+    cases hN : pp.offsetNameservers with
+    | none => simp [hoff, hq, ha, hN, hR, optLt, optGe, a1, a2, hx]
+    | some n => have := hn n hN; simp [hoff, hq, ha, hN, hR, optLt, optGe, a1, a2, this, hx]
+
+/-- a cursor standing on a record of section `sec` of a plain object reports `sec` -/
+theorem PlainObj.currentSection_at {pp : PP} (P : PlainObj pp) (sec : Section) (hs : sec.isRec = true) {ps1 ps2 : List Bytes} {rc : Bytes}
+    (hsplit : P.lst sec = ps1 ++ rc :: ps2) (hrc : 0 < rc.length) (c : Cursor)
+    (hoff : c.offset = some (P.start sec + ps1.flatten.length)) : c.currentSection pp = .ok sec := by
+  have hfl : (P.lst sec).flatten.length = ps1.flatten.length + rc.length + ps2.flatten.length := by
+    rw [hsplit]; simp; omega
+  have hpos : (P.lst sec).length > 0 := by rw [hsplit]; simp; omega
+  cases sec with
+  | answer =>
+    simp only [PlainObj.lst, PlainObj.start] at hfl hpos hoff
+    refine currentSection_answer pp c _ _ hoff P.oq (by omega) (by rw [P.oa, if_pos hpos]) (by omega) ?_ ?_
+    · intro n hn
+      rw [P.on] at hn
+      split at hn
+      · simp only [Option.some.injEq] at hn; omega
+      · simp at hn
+    · intro x hx
+      rw [P.oR] at hx
+      split at hx
+      · simp only [Option.some.injEq] at hx; omega
+      · simp at hx
+  | nameServers =>
+    simp only [PlainObj.lst, PlainObj.start] at hfl hpos hoff
+    refine currentSection_nameServers pp c _ _ hoff P.oq (by omega) (by rw [P.on, if_pos hpos]) (by omega) ?_
+    intro x hx
+    rw [P.oR] at hx
+    split at hx
+    · simp only [Option.some.injEq] at hx; omega
+    · simp at hx
+  | additional =>
+    simp only [PlainObj.lst, PlainObj.start] at hfl hpos hoff
+    exact currentSection_additional pp c _ _ hoff P.oq (by omega) (by rw [P.oR, if_pos hpos]) (by omega)
+  | question => simp [Section.isRec] at hs
+  | edns => simp [Section.isRec] at hs
+
 /-- what the iterators read for section `sec` -/
 theorem PlainObj.secInfo {pp : PP} (P : PlainObj pp) (sec : Section) (hs : sec.isRec = true) :
     Dns.secInfo pp sec = .ok ((P.lst sec).length, if (P.lst sec).length > 0 then some (P.start sec) else none) := by
